@@ -53,6 +53,9 @@ def tasks_for(pid, tier, seed):
                 kern("packing", True, fs)
                 kern("index_extraction", False, fs)
                 kern("growth", True, fs)
+    if pid == "C10":
+        t.append(dict(kind="unwind", dbg=True, features=(), name="unwind:Storage::clone",
+                      what="MIR path fact: on the unwind edge of every user Clone::clone call inside Storage{N}::clone only RefCell guards are dropped (no partially initialised storage); confirmed natively by a Clone that panics at its k-th call"))
     if pid == "C15":
         def ids(k, c, arch_cfg, comp_cfg, label):
             t.append(dict(kind="ids", k=k, c=c, arch_cfg=arch_cfg, comp_cfg=comp_cfg, name="ids:%s" % label,
@@ -148,6 +151,47 @@ def run_task(task, mir_path, validate_n):
             res["modelled_callees"] = sorted(cx.modelled)
             res["paths"] = len(obs)
             res["bounds"] = BOUND_KERNEL
+        elif task["kind"] == "unwind":
+            res["bounds"] = "Storage1..Storage16 (all generic MIR bodies of `impl Clone for StorageN`); every call to <Tk as Clone>::clone"
+            res["assumes"] = ["syntactic MIR fact (no solver query): the deciding observation for a violation is the native run with a really panicking Clone"]
+            facts = []
+            bad_facts = []
+            for it in M.items:
+                if it.kind != "fn" or not it.name.endswith("::clone") or not re.search(r"\(_1: &Storage\d+<", it.header):
+                    continue
+                res["functions"].append(re.sub(r"<impl at [^>]*>", "<impl>", it.name) + " for " + re.search(r"Storage\d+", it.header).group(0))
+                for bb, sts in it.blocks.items():
+                    for st in sts:
+                        m = re.match(r"_\d+ = <T\d+ as Clone>::clone\(.*\) -> \[return: bb\d+, unwind: (bb\d+)\]", st)
+                        if not m:
+                            continue
+                        cur = m.group(1); seen = set(); dropped = []
+                        while cur and cur not in seen:
+                            seen.add(cur); nxt = None
+                            for s2 in it.blocks.get(cur, []):
+                                d = re.match(r"drop\((_\d+)\) -> \[return: (bb\d+)", s2)
+                                if d:
+                                    dropped.append((d.group(1), it.locals.get(d.group(1), "?"))); nxt = d.group(2)
+                                g = re.match(r"goto -> (bb\d+)", s2)
+                                if g:
+                                    nxt = g.group(1)
+                            cur = nxt
+                        facts.append((it.header[:80], st[:60], dropped))
+                        for loc, ty in dropped:
+                            if not re.match(r"(std::cell::)?(Ref|RefMut)<", ty):
+                                bad_facts.append("%s: unwinding out of `%s` drops %s: %s" % (re.search(r"Storage\d+", it.header).group(0), st.split(" = ")[1][:40], loc, ty[:80]))
+            res["paths"] = len(facts)
+            res["queries"] = len(facts)
+            res["samples"] = [{"call": f[1], "dropped_on_unwind": [t_ for _, t_ in f[2]]} for f in facts[:2]]
+            if not facts:
+                res["verdict"] = "inconclusive"; res["reason"] = "no Clone::clone call found in Storage::clone MIR"
+            elif bad_facts:
+                res["verdict"] = "violation"; res["reason"] = bad_facts[0]; res["n_violated"] = len(bad_facts)
+                res["native_harness"] = "c10::c10_native_clone_panics_at_k"
+            else:
+                res["verdict"] = "holds"
+            res["wall_s"] = time.time() - t0
+            return res
         elif task["kind"] == "ids":
             k, c = task["k"], task["c"]
             pa = [((i,) if task["arch_cfg"] else ()) for i in range(k)]
@@ -388,7 +432,7 @@ def run(pid, tier, spec):
     dumps = {}
     t0 = time.time()
     for t in tasks:
-        crate = "gecs" if t["kind"] == "kernel" else "gecs_macros"
+        crate = "gecs" if t["kind"] in ("kernel", "unwind") else "gecs_macros"
         key = (crate, t.get("dbg", True), t.get("features", ()))
         if key not in dumps:
             try:
@@ -446,6 +490,26 @@ def run(pid, tier, spec):
     # replay counterexamples natively before they are reported
     for r in results:
         r.pop("validation_cases", None)
+        if r["verdict"] == "violation" and r.get("native_harness"):
+            from . import replay as rp
+            hit = None
+            for k in (1, 2, 3):
+                runs = rp.native_runs(r["native_harness"], (), True, [[k]], want_miri=False)
+                if any(v.get("exit") == 1 for v in runs.values()):
+                    hit = (k, runs); break
+            if hit:
+                r["native"] = {"k": hit[0], "runs": hit[1]}
+                r["reason"] += " | native: " + "; ".join("%s: %s" % (a, b["message"]) for a, b in hit[1].items())
+                os.makedirs(common.REPLAY_DIR, exist_ok=True)
+                path = os.path.join(common.REPLAY_DIR, "%s_native_%s.json" % (pid, common.sha(r["name"] + r["reason"])))
+                with open(path, "w") as f:
+                    json.dump({"property": pid, "harness": r["native_harness"], "features": [], "debug_assertions": True, "values": [[hit[0]]],
+                               "kani_reason": r["reason"], "native_runs": hit[1], "how_to_replay": "/verif/check --replay " + path}, f, indent=1)
+                r["replay_path"] = path
+            else:
+                r["verdict"] = "inconclusive"
+                r["reason"] = "MIR unwind fact violated but the native run with a panicking Clone shows no symptom: " + r["reason"]
+            continue
         if r["verdict"] == "violation":
             ce = r.get("counterexample")
             if ce:
